@@ -435,7 +435,8 @@ fn arb_op() -> BoxedStrategy<Op> {
         1 => Just(Op::ClearVariables),
         1 => Just(Op::ClearFunctions),
         1 => Just(Op::Clear),
-        1 => (select(vec!["f", "g", "typeof"]).prop_map(|s| s.to_string()), gen::arb_uf()).prop_map(|(n, f)| Op::SetFunction(n, f)),
+        // also functions named like the variables: the two namespaces are separate
+        1 => (select(vec!["f", "g", "typeof", "a", "ä"]).prop_map(|s| s.to_string()), gen::arb_uf()).prop_map(|(n, f)| Op::SetFunction(n, f)),
         1 => any::<bool>().prop_map(Op::Toggle),
         1 => Just(Op::CloneAndContinue),
     ]
@@ -445,7 +446,7 @@ fn arb_op() -> BoxedStrategy<Op> {
 fn names4() -> (Vec<String>, Vec<String>) {
     (
         ["a", "b", "c", "ä"].iter().map(|s| s.to_string()).collect(),
-        ["f", "g", "typeof", "h"].iter().map(|s| s.to_string()).collect(),
+        ["f", "g", "typeof", "h", "a", "ä"].iter().map(|s| s.to_string()).collect(),
     )
 }
 
@@ -520,6 +521,11 @@ pub fn run(rep: &Report) {
         for (k, f) in fnames.iter().enumerate() {
             setup.push(Op::SetFunction(f.clone(), UF::Tag(k as i64 % 3 + 1)));
         }
+        // a context function named like one of the variables (separate namespaces)
+        if variant % 3 == 1 {
+            setup.push(Op::SetFunction(names[n / 2].clone(), UF::Const(RV::Int(77))));
+            setup.push(Op::EvalRead(names[n / 2].clone()));
+        }
         let mut ops: Vec<Op> = (0..n).map(|k| Op::SetValue(names[k].clone(), val(k, 0))).collect();
         let picks = [0usize, n / 2, n - 1, 15.min(n - 1), 16.min(n - 1), 17.min(n - 1)];
         for (j, k) in picks.iter().enumerate() {
@@ -539,6 +545,7 @@ pub fn run(rep: &Report) {
             2 => Op::ClearFunctions,
             _ => Op::EvalRead(names[n / 2].clone()),
         });
+        ops.push(Op::EvalRead(names[n / 2].clone()));
         // after a clear every name may take any type again
         for k in picks {
             ops.push(Op::SetValue(names[k].clone(), val(k, 2)));
